@@ -71,6 +71,18 @@ def vmStep (st : VmEngState) (args : List String) : VmEngState × String :=
         let (s', e) := run p (kv rest "budget" Gen.maxInstr) s
         ({ st with st := some s' }, showOutcome p s' e ++ " gcs=" ++ toString s'.forcedGcs ++ "/" ++ toString s'.allocIndex)
     | _, _ => (st, "bad-op")
+  | "runcheck" :: m :: rest =>
+    match st.st, Module.ofTok? m with
+    | some s, some m =>
+      match compile m Gen.stdlib with
+      | .error e => (st, "compile-" ++ showCErr e)
+      | .ok prog =>
+        let p := Prog.ofProgram prog
+        let budget := kv rest "budget" Gen.maxInstr
+        let (s', e) := run p budget { s with hostLog := [], sched := .none, allocIndex := 0, forcedGcs := 0 }
+        let (sf, ef) := run p budget (VmState.fresh st.cfg)
+        ({ st with st := some s' }, "cur={" ++ showOutcome p s' e ++ "} fresh={" ++ showOutcome p sf ef ++ "}")
+    | _, _ => (st, "bad-op")
   | "schedcheck" :: m :: rest =>
     match Module.ofTok? m with
     | some m =>
